@@ -293,6 +293,9 @@ type c18Family struct {
 	run  func() string
 }
 
+// c18OptChanged: set by a family run that left the option vector different from what it found (first one wins).
+var c18OptChanged string
+
 func c18Families() []c18Family {
 	res := func(parts ...interface{}) string {
 		var sb strings.Builder
@@ -314,8 +317,13 @@ func c18Families() []c18Family {
 	}
 	guard := func(f func() string) func() string {
 		return func() (s string) {
+			before := realVector()
 			if st, pan := protect(func() { s = f() }); pan {
 				return "PANIC " + strings.SplitN(st, "\n", 2)[0]
+			}
+			// a decode, encode or query is not an option setter: the option vector is what it was
+			if d := diffModels(before, realVector()); d != "" && c18OptChanged == "" {
+				c18OptChanged = d
 			}
 			return s
 		}
@@ -374,6 +382,11 @@ func c18Families() []c18Family {
 			y, e2 := fixedMap().XmlIndent("", " ")
 			z, e3 := mxj.AnyXml([]interface{}{"s", map[string]interface{}{"k": nil}})
 			return res(x, e1, y, e2, z, e3)
+		})},
+		{"beautify", append(append([]string{}, seqDecDeps...), "xmlEscapeChars", "useGoXmlEmptyElemSyntax", "xmlCheckIsValid"), guard(func() string {
+			b, err := mxj.BeautifyXml([]byte(seqDoc), "", " ")
+			b2, err2 := mxj.BeautifyXml([]byte(`<a x="1"><b>t</b><c/></a>`), " ", "\t")
+			return res(b, err, b2, err2)
 		})},
 		{"seq-encode", seqEncDeps, guard(func() string {
 			x, e1 := fixedSeq().Xml()
@@ -537,9 +550,16 @@ func (e *c18Engine) checkState(history []int, m optModel) {
 			c.S.Transitions++
 		}
 		e.goTo(history)
+		c18OptChanged = ""
 		got := f.run()
 		c.S.Transitions++
 		c.S.Validated++
+		if c18OptChanged != "" {
+			c.Violate(f.name, "data-call-changed-an-option", "family="+f.name, c18Case{History: e.names(history), Family: f.name}, nil,
+				fmt.Sprintf("history=%v: using family %s (decode / encode / query calls, no setter) changed the option state: %s", e.names(history), f.name, c18OptChanged))
+			c18OptChanged = ""
+			return
+		}
 		if got != want {
 			c.Violate(f.name, "non-interference", "family="+f.name, c18Case{History: e.names(history), Family: f.name}, nil,
 				fmt.Sprintf("history=%v\n family %s depends on %v only, yet it behaves differently from the state that agrees on those and is default elsewhere\n here     : %s\n canonical: %s\n state differences from default: %s", e.names(history), f.name, f.deps, short(got, 600), short(want, 600), diffModels(e.base, m)))
@@ -703,7 +723,7 @@ func c18Run(c *Ctx) {
 			return
 		}
 	}
-	c.S.Rule = "explicit-state breadth-first search over the real package-option machine: state = dump (generated at build time) of the 38 package-level variables of mxj that are option state - what the setters write; other package-level variables a tree may have (tables, caches, pools, counters, lazily set flags) are not compared, their effect is judged by behaviour; transitions = every option setter in every argument form (explicit true/false, argument-less, attribute prefixes {-,\"\",@,_}, PrependAttrWithHyphen, key prefixes {#,_,$}, field separators, array sizes, skip function nil/f, empty-element syntax, JsonUseNumber) - 63 transitions; all histories of length <= D from the initial state with state de-duplication (two histories are merged only if they agree on the option vector AND on every other non-container package-level variable the tree under test has - a flag or remembered value a setter keeps beside its option gives the state a different future, so such states are kept apart, up to 40000 of them). On every transition: the reference option machine predicts the whole next state vector (documented semantics incl. toggles, 'disable' for white space, 'reset' for the field separator, the coupling of the two escaping switches), explicit forms are idempotent (the setter's global writes are logged against its documented write set, informational). On every state: 11 API families behave exactly as in the canonical state that agrees on the family's documented dependency set (non-interference), and after restoring defaults the state vector and the behaviour battery equal the fresh-process baseline; both again with use interleaved (all 11 families are used after every setter, not only at the end: what a decode, encode or query made under an earlier setting leaves behind must not show later) - for the representative history of every state and for EVERY history of 2 (thorough: 3) setters, merged or not. Documented behavioural effect of XmlGoEmptyElemSyntax ('<tag ...></tag> rather than <tag .../>'): for every value template with <= 4/5 nodes over {a,-x,#text} with empty containers, empty strings and nulls and 6 encoders, the output under the switch has the same token stream as the default output and contains no '/>'. Documented behavioural effect of the attribute prefix and the global key prefix (they only name keys inside the Map): for every document with <= 2 elements and <= 2 decorations (attributes whose own names begin with prefix characters: _id, __v, _; text, comment, PI), decode + encode under prefixes {@, _, __, attr_, -_, the two-byte character U+00A7, @ followed by U+00B5} / key prefixes {_, $, %} gives the same XML as under the defaults. Cold starts: every history of length 1 (thorough: <= 2) is also run as the first thing a fresh process does (a child process of the worker): it applies the history, uses all 11 families, restores the defaults and uses them again - behaviour after the restore must equal the fresh baseline and behaviour in the state must equal what the long-lived worker shows in that state (whatever is initialised lazily must not freeze the options in force at first use). non-trivial = distinct states."
+	c.S.Rule = "explicit-state breadth-first search over the real package-option machine: state = dump (generated at build time) of the 38 package-level variables of mxj that are option state - what the setters write; other package-level variables a tree may have (tables, caches, pools, counters, lazily set flags) are not compared, their effect is judged by behaviour; transitions = every option setter in every argument form (explicit true/false, argument-less, attribute prefixes {-,\"\",@,_}, PrependAttrWithHyphen, key prefixes {#,_,$}, field separators, array sizes, skip function nil/f, empty-element syntax, JsonUseNumber) - 63 transitions; all histories of length <= D from the initial state with state de-duplication (two histories are merged only if they agree on the option vector AND on every other non-container package-level variable the tree under test has - a flag or remembered value a setter keeps beside its option gives the state a different future, so such states are kept apart, up to 40000 of them). On every transition: the reference option machine predicts the whole next state vector (documented semantics incl. toggles, 'disable' for white space, 'reset' for the field separator, the coupling of the two escaping switches), explicit forms are idempotent (the setter's global writes are logged against its documented write set, informational). On every state: no family (decode, encode or query calls - no setter) changes the option vector; 12 API families (11 + BeautifyXml) behave exactly as in the canonical state that agrees on the family's documented dependency set (non-interference), and after restoring defaults the state vector and the behaviour battery equal the fresh-process baseline; both again with use interleaved (all 12 families are used after every setter, not only at the end: what a decode, encode or query made under an earlier setting leaves behind must not show later) - for the representative history of every state and for EVERY history of 2 (thorough: 3) setters, merged or not. Documented behavioural effect of XmlGoEmptyElemSyntax ('<tag ...></tag> rather than <tag .../>'): for every value template with <= 4/5 nodes over {a,-x,#text} with empty containers, empty strings and nulls and 6 encoders, the output under the switch has the same token stream as the default output and contains no '/>'. Documented behavioural effect of the attribute prefix and the global key prefix (they only name keys inside the Map): for every document with <= 2 elements and <= 2 decorations (attributes whose own names begin with prefix characters: _id, __v, _; text, comment, PI), decode + encode under prefixes {@, _, __, attr_, -_, the two-byte character U+00A7, @ followed by U+00B5} / key prefixes {_, $, %} gives the same XML as under the defaults. Cold starts: every history of length 1 (thorough: <= 2) is also run as the first thing a fresh process does (a child process of the worker): it applies the history, uses all 12 families, restores the defaults and uses them again - behaviour after the restore must equal the fresh baseline and behaviour in the state must equal what the long-lived worker shows in that state (whatever is initialised lazily must not freeze the options in force at first use). non-trivial = distinct states."
 	c.S.Assumptions = []string{"key prefixes are single punctuation characters (as the property states)", "the fresh-process baseline is recorded in the worker before any setter is called"}
 	depth := 4
 	if c.Thorough {
